@@ -428,6 +428,18 @@ func signTx(tx *bt.Tx, b built, ht uint8, viaFillAll bool) error {
 	} else {
 		panicked, pm = common.Safely(func() {
 			for i, k := range b.keys {
+				if ht == 0x41 && (i+len(b.spec.Outs))%2 == 0 {
+					// the unlocker called directly (as a custom bt.Unlocker wrapper or a signing service does) with the
+					// hash type left at its documented default (0 = ALL|FORKID)
+					var us *bscript.Script
+					if us, err = (&unlocker.Simple{PrivateKey: k.priv}).UnlockingScript(context.Background(), tx, bt.UnlockerParams{InputIdx: uint32(i)}); err != nil {
+						return
+					}
+					if err = tx.InsertInputUnlockingScript(uint32(i), us); err != nil {
+						return
+					}
+					continue
+				}
 				if err = tx.FillInput(context.Background(), &unlocker.Simple{PrivateKey: k.priv},
 					bt.UnlockerParams{InputIdx: uint32(i), SigHashFlags: sighash.Flag(ht)}); err != nil {
 					return
